@@ -36,6 +36,9 @@ def prop_result(ctx, case):
     if dw is None:
         return
     a, e = dw
+    if case.get('force'):
+        a = list(a)
+        a[case['force'][0]] = case['force'][1]
     e = [err] + e[1:]
     if not renderings(err).isdisjoint(renderings(e[1])) and err:
         return
@@ -129,6 +132,14 @@ def run(ctx):
             cases.append({'name': n, 'seed': base + 17 * i + 1000003 * r, 'err': ERR_VALUES[(i * 7 + r * 13 + ctx.seed) % len(ERR_VALUES)],
                           'nested': [0, 1, 2, 3, 1, 0, 5][(i + r) % 7] if (i + 5 * r + ctx.seed) % 97 else [300, 260, 1000][(i + r) % 3]})
     ctx.run_enum('result', cases, prop_result, exhaustive_label='every non-exempt BSD decoder name (END tuples sampled)')
+    # every value of every enum-valued START argument, with a failing END (a decoder may branch on the command)
+    enum_cases = []
+    for n in ns:
+        for base_name in (n, ):
+            for k, vals in domains.START.get(base_name, {}).items():
+                for j, v in enumerate(vals):
+                    enum_cases.append({'name': n, 'seed': base + 7 * j + k, 'err': [13, 9, 35, 2 ** 31][j % 4], 'nested': j % 2, 'force': [k, v]})
+    ctx.run_enum('result', enum_cases, prop_result, exhaustive_label='every value of every enum-valued START argument with a failing END')
     ov = st.fixed_dictionaries({'x': st.sampled_from(ns), 'y': st.sampled_from(ns), 'seed': st.integers(0, 2 ** 62),
                                 'ex': st.sampled_from([0, 9, 13, 35]), 'ey': st.sampled_from([0, 1, 2, 60]), 'crossing': st.booleans()})
     ctx.run_given('overlap', ov, prop_overlap, ctx.n(500, 10000))
